@@ -222,7 +222,10 @@ pub fn tree_walker(
 
         let gitignore = parse_ignore(&source, config)?;
 
+        // When dereferencing, linked directories must be descended
+        // into as well (a loop is reported as an error by the walk).
         for entry in WalkDir::new(&source)
+            .follow_links(config.dereference)
             .into_iter()
             .filter_entry(|e| ignore_filter(e, &gitignore))
         {
